@@ -182,8 +182,8 @@ macro_rules! eight {
 }
 pub(crate) use eight;
 
-pub const REG1_FORMS: usize = 7;
-pub const REG1_FORM_NAMES: [&str; REG1_FORMS] = ["arr.m(&arr)", "arr.m(&ds)", "ds.m(&arr)", "ds.m(&ds)", "view.m(&view)", "col2.m(&col2)", "dsview.m(&view)"];
+pub const REG1_FORMS: usize = 8;
+pub const REG1_FORM_NAMES: [&str; REG1_FORMS] = ["arr.m(&arr)", "arr.m(&ds)", "ds.m(&arr)", "ds.m(&ds)", "view.m(&view)", "col2.m(&col2)", "dsview.m(&view)", "arr.m(&&arr)"];
 pub const REGM_FORMS: usize = 6;
 pub const REGM_FORM_NAMES: [&str; REGM_FORMS] = ["arr2.m(&arr2)", "arr2.m(&ds)", "ds.m(&arr2)", "ds.m(&ds)", "view2.m(&view2)", "dsview.m(&dsview)"];
 
@@ -226,6 +226,11 @@ pub fn call_reg1<F: linfa::Float>(form: usize, a: &Array1<F>, b: &Array1<F>, g: 
             let da = DatasetBase::new(r.view(), a.view());
             let vb = b.view();
             eight!(g, da, &vb)
+        }
+        7 => {
+            // `impl AsTargets for &T`: the argument type is a reference
+            let rb: &Array1<F> = b;
+            eight!(g, a, &rb)
         }
         _ => unreachable!("reg1 form"),
     }
